@@ -65,6 +65,7 @@ struct DeliveryRules
   bool check_attribution = true; // formatted line, thread id, logger name, named arguments
   bool check_order = true;
   bool allow_backtrace_replay = false; // kind==1 statements are handled by the C18 oracle
+  std::function<bool(Issued const&)> skip; // statements this pass does not look at (judged by another pass)
 };
 
 inline char const* level_name(int l)
@@ -195,7 +196,7 @@ inline Verdict check_delivery(Model const& m, DeliveryRules const& rules)
                                          " which was never issued");
       }
       Issued const& is = it->second;
-      if (rules.allow_backtrace_replay && is.kind == 1)
+      if ((rules.allow_backtrace_replay && is.kind == 1) || (rules.skip && rules.skip(is)))
       {
         continue;
       }
@@ -237,7 +238,7 @@ inline Verdict check_delivery(Model const& m, DeliveryRules const& rules)
     for (int64_t id : m.issue_order)
     {
       Issued const& is = m.issued.at(id);
-      if (rules.allow_backtrace_replay && is.kind == 1)
+      if ((rules.allow_backtrace_replay && is.kind == 1) || (rules.skip && rules.skip(is)))
       {
         continue;
       }
